@@ -189,6 +189,11 @@ func C19(c *core.Ctx) {
 			if !core.MustFollow(fu, core.After(unmark[0]), isSweep, nil).OK {
 				ok = false
 			}
+			// ... and on every path from the function entry: an early return before the
+			// bracket ("nothing to install") would leave the previous routes registered
+			if !core.MustFollow(fu, core.Point{Block: fu.Blocks[0], Idx: 0}, isSweep, nil).OK {
+				ok = false
+			}
 		}
 		c.Decide(ok, "R19.2", "mark-sweep-bracket", p.Pos(fu.Pos()), "UnmarkAll → (UpdateH, MarkH)* → RemoveUnmarked on every path", "fibUpdate does not bracket the rebuild with UnmarkAll before and RemoveUnmarked after every update: prefixes that are no longer prescribed stay registered (or freshly updated ones are swept)")
 		// MarkH only for entries UpdateH kept
@@ -298,6 +303,70 @@ func C19(c *core.Ctx) {
 		g2 := core.Gate(uh, reg, neg(same))
 		c.Decide(len(unreg) == 1 && g1.OK && g1.PassEdges > 0, "R19.2", "unregister-only-unreachable", p.Pos(uh.Pos()), "'unregister' is issued only on the edge asserting cost ≥ infinity", "UpdateH can unregister a face that is still a finite-cost next hop (or never unregisters)")
 		c.Decide(len(reg) == 1 && g2.OK && g2.PassEdges > 0, "R19.2", "register-only-on-cost-change", p.Pos(uh.Pos()), "'register' is issued only when the cost differs from the installed one", "UpdateH re-registers unchanged routes or skips changed ones (the register command is not gated by Cost != prevCost)")
+		// a face listed more than once for a prefix keeps its lowest cost: the store into
+		// an existing entry's Cost (other than the reset to infinity) is min(new, current)
+		nStore, okMin := 0, true
+		core.Instrs(uh, func(in ssa.Instruction) {
+			fa, v, ok := storeToField(in, "FibEntry", "Cost")
+			if !ok {
+				return
+			}
+			if _, isElem := core.Strip(fa.X).(*ssa.IndexAddr); !isElem {
+				return
+			}
+			if k, isC := core.ConstInt(v); isC && k == inf {
+				return
+			}
+			nStore++
+			cl, isCall := core.Strip(v).(*ssa.Call)
+			good := false
+			if isCall {
+				if b, ok := cl.Call.Value.(*ssa.Builtin); ok && b.Name() == "min" {
+					for _, a := range cl.Call.Args {
+						if u, ok := core.Strip(a).(*ssa.UnOp); ok {
+							if fa2, ok := u.X.(*ssa.FieldAddr); ok && fa2.Field == fa.Field && core.Same(fa2.X, fa.X) {
+								good = true
+							}
+						}
+					}
+				}
+			}
+			if !good {
+				// or: the store is reachable only on the edge asserting new < current
+				lower := &core.Atom{Name: "new.Cost<current.Cost", Match: func(cond ssa.Value) (int, int) {
+					op, x, y, ok := core.Cmp(cond)
+					if !ok {
+						return 0, 0
+					}
+					isCur := func(w ssa.Value) bool {
+						u, ok := core.Strip(w).(*ssa.UnOp)
+						if !ok {
+							return false
+						}
+						fa2, ok := u.X.(*ssa.FieldAddr)
+						return ok && fa2.Field == fa.Field && core.Same(fa2.X, fa.X)
+					}
+					if isCur(x) && core.Same(y, v) {
+						op = core.Swap(op)
+					} else if !(isCur(y) && core.Same(x, v)) {
+						return 0, 0
+					}
+					switch op {
+					case token.LSS:
+						return 1, -1
+					case token.GEQ:
+						return -1, 1
+					}
+					return 0, 0
+				}}
+				g := core.Gate(uh, []ssa.Instruction{in}, pos(lower))
+				good = g.OK && g.PassEdges > 0
+			}
+			if !good {
+				okMin = false
+			}
+		})
+		c.Decide(nStore > 0 && okMin, "R19.2", "duplicate-face-keeps-lowest-cost", p.Pos(uh.Pos()), "an existing entry's cost is only lowered (min of the desired costs for that face)", "UpdateH overwrites the cost of a face that is listed more than once for a prefix with the last one seen instead of the lowest: multi-homed prefixes and shared faces are installed at a non-minimal cost")
 		// all kept entries are stored back
 		stored := false
 		core.Instrs(uh, func(in ssa.Instruction) {
@@ -337,6 +406,45 @@ func C19(c *core.Ctx) {
 		})
 		g := core.Gate(ru, eff, neg(unmarked))
 		c.Decide(len(eff) > 0 && g.OK && g.PassEdges > 0, "R19.2", "sweep-removes-only-unmarked", p.Pos(ru.Pos()), "only unmarked prefixes are withdrawn", "RemoveUnmarked can withdraw a prefix that was marked in this rebuild")
+	}
+
+	// ---- R19.3 the local table is changed before the operation is published (publishOp
+	// may take a snapshot of the table, which must already reflect the operation)
+	for _, m := range []string{"Announce", "Withdraw"} {
+		fn := c.Fn("R19.3", "dv/table", "PrefixTable", m)
+		if fn == nil {
+			continue
+		}
+		pubs := core.FindCalls(fn, core.CalleeID{Pkg: "dv/table", Recv: "PrefixTable", Name: "publishOp"})
+		okOrder := len(pubs) > 0
+		for _, pc := range pubs {
+			if !core.Precedes(fn, pc, func(x ssa.Instruction) bool {
+				if mu, ok := x.(*ssa.MapUpdate); ok {
+					_, okF := core.FieldOf(mu.Map, "Prefixes")
+					return okF
+				}
+				return isMapDelete(x, "Prefixes")
+			}) {
+				okOrder = false
+			}
+		}
+		c.Decide(okOrder, "R19.3", "table-changed-before-publish:"+m, p.Pos(fn.Pos()), "the own prefix set is updated on every path before publishOp", "PrefixTable."+m+" publishes the operation before (or without) changing its own prefix set: a snapshot taken while publishing contradicts the operation log, and a router that starts from the snapshot reconstructs a different prefix set")
+		// and nothing changes the set after publishing
+		after := false
+		for _, pc := range pubs {
+			core.Instrs(fn, func(x ssa.Instruction) {
+				isMut := isMapDelete(x, "Prefixes")
+				if mu, ok := x.(*ssa.MapUpdate); ok {
+					if _, okF := core.FieldOf(mu.Map, "Prefixes"); okF {
+						isMut = true
+					}
+				}
+				if isMut && core.ReachInstrFrom(core.After(pc), x, nil, nil) != nil {
+					after = true
+				}
+			})
+		}
+		c.Decide(!after, "R19.3", "no-table-change-after-publish:"+m, p.Pos(fn.Pos()), "the own prefix set is not changed after the operation was published", "PrefixTable."+m+" changes its own prefix set after publishing: the published snapshot and the set disagree")
 	}
 
 	// ---- R19.3 Apply order and publish sequence
